@@ -262,7 +262,7 @@ def check():
 
     # ---------------------------------------------------------------- replay
     o.samples = [{"query": q["name"], "verdict": q["verdict"]} for q in o.queries if q.get("engine") != "mirsym/z3" or "witness" not in q["name"]][:14]
-    if bad or tier() == "thorough":
+    if True:   # the real-binary oracle is cheap: always run it (replay of a failing lemma, or translator validation)
         mism, rdir, detail = run_matrix()
         o.extra["real_cli_matrix"] = detail
         if bad:
